@@ -47,4 +47,21 @@ def validate_spec(inp):
                     bad.append({"n_bits": bits, "d": d, "inflate_wrong": True})
         if len(bad) > 4:
             break
+    # inflate_long on byte strings that are NOT canonical encodings (what a peer may put in a signature or a key blob): the
+    # value is the two's-complement reading of the bytes whatever their number - in particular a leading byte >= 0x80 means
+    # negative also when the length is a whole number of 32-bit words
+    import random
+    rng = random.Random(39)
+    for ln in range(0, 70):
+        for first in (0x00, 0x01, 0x7f, 0x80, 0x81, 0xff):
+            for _ in range(3):
+                raw = (bytes([first]) + bytes(rng.randrange(256) for _ in range(ln - 1))) if ln else b""
+                count += 1
+                got = util.inflate_long(raw)
+                want = int.from_bytes(raw, "big", signed=True)
+                if got != want:
+                    bad.append({"inflate_of": raw.hex()[:40], "length": ln, "sign": "negative" if want < 0 else "non-negative",
+                                "got_sign": "negative" if got < 0 else "non-negative"})
+                if util.inflate_long(raw, always_positive=True) != int.from_bytes(raw, "big"):
+                    bad.append({"inflate_always_positive_of": raw.hex()[:40], "length": ln})
     return {"violates": bool(bad), "detail": bad[:4], "evaluations": count}
